@@ -2,6 +2,7 @@
    implementation returned.  Codes: 0 ok, 1 impl <> model, 2 spec violated. *)
 From Coq Require Import List NArith ZArith Bool String.
 From GQL Require Import Base.Bytes Lang.Location.
+From GQL Require Import Syntax.Lexer SynErr.LexErr SynErr.ParseErr SynErr.Viable.
 From GQL Require Export Run.ExecRun.
 Import ListNotations.
 Open Scope N_scope.
@@ -11,7 +12,9 @@ Inductive c18case :=
     (* direct call of GetLocation(body, position) *)
 | ErrCase (body : string) (off : N) (line : N) (col : Z)
     (* an error reported by an entry point for the token/node at byte offset off *)
-| ExecCase (x : xcase).
+| ExecCase (x : xcase)
+| SynCase (body : string) (line : N) (col : Z).
+    (* parser.Parse rejected the (ASCII) source body with a syntax error located at (line, col) *)
     (* a generated request: every field error's path addresses a null in data, and
        paths and locations equal those of the execution model (Run/ExecRun.v, kind 18) *)
 
@@ -22,6 +25,33 @@ Definition in_crlf (s : bytes) (position : N) : bool :=
          | Some 13, Some 10 => true
          | _, _ => false
          end
+  end.
+
+(* lexicographic order on (line, column) *)
+Definition loc_leb (a b : N * Z) : bool :=
+  (fst a <? fst b) || ((fst a =? fst b) && (snd a <=? snd b)%Z).
+
+(* A syntax error.  The model (SynErr/ParseErr.v) reports the start of the token the parser
+   stopped at, or the lexer's position inside the malformed lexeme.
+     0  the implementation reports the model's position;
+     1  it reports another position inside the same token / lexeme, or the model accepts the
+        source, or the position is outside and the theorems do not decide (behind a malformed
+        lexeme; in front of the token when no witness is found);
+     2  it reports a position behind the token the model reports -- no valid document continues
+        the text up to and including that token (C18_syntax_error_no_extension), so the text
+        stopped being a beginning of a valid document earlier than the reported location --
+        or a position in front of the token / malformed lexeme although the tokens before it are
+        the beginning of a valid document (witness found by [viable_witness],
+        C18_syntax_error_first_nonviable_partial), so it is not inside the first offending one. *)
+Definition check_syn (s : bytes) (l : N) (col : Z) : N :=
+  match parse_report s with
+  | None => 1
+  | Some r =>
+    let m := spec_location s (r_off r) in
+    if (l =? fst m) && (col =? snd m)%Z then 0
+    else if loc_leb (spec_location s (r_lo r)) (l, col) && loc_leb (l, col) (spec_location s (r_hi r)) then 1
+    else if loc_leb (spec_location s (r_hi r)) (l, col) then (if r_lexical r then 1 else 2)
+    else match viable_witness (r_before r) with Some _ => 2 | None => 1 end
   end.
 
 Definition check (c : c18case) : N :=
@@ -35,6 +65,7 @@ Definition check (c : c18case) : N :=
   | ErrCase b off l col =>
     if loc_ok (unhex b) off l col then 0 else 2
   | ExecCase x => ExecRun.check x
+  | SynCase b l col => check_syn (unhex b) l col
   end.
 
 Fixpoint bad18 (cs : list (N * c18case)) : list (N * N) :=
